@@ -600,12 +600,49 @@ func wfValue(r *Rng, kind string, n int) []byte {
 	return tile(r, kind, n)
 }
 
+// longLabelsValue: a search list whose last name is as long as names may get - 250..300
+// characters in presentation form, the limit being 253 -, ended by the root label, by a
+// pointer to an earlier name or by nothing at all (the partial name RFC 4704 allows at the
+// end of a value); such a value takes two option instances on the wire.
+// (seeded change C17-18: the name-length check moved to the terminator, so that an
+// over-long UNTERMINATED name passed.)
+func longLabelsValue(r *Rng) []byte {
+	var out []byte
+	if r.Bool() {
+		out = append(out, 3, 'a', 'b', 'c', 0)
+	}
+	rem := r.Pick([]int{250, 252, 253, 254, 255, 256, 260, 300})
+	for rem > 0 {
+		l := min(63, rem)
+		if rem-l == 1 {
+			l--
+		}
+		out = append(out, byte(l))
+		for i := 0; i < l; i++ {
+			out = append(out, byte('a'+r.Intn(26)))
+		}
+		rem -= l + 1
+	}
+	switch r.Intn(3) {
+	case 0:
+		out = append(out, 0)
+	case 1:
+		if out[0] == 3 {
+			out = append(out, 0xc0, 0)
+		}
+	}
+	return out
+}
+
 func genAccLine(r *Rng, a *accEntry, n int, mode int) (string, []string) {
 	var v []byte
 	tag := ""
 	switch mode {
 	case 0:
 		v, tag = wfValue(r, a.kind, n), "wf"
+		if a.kind == "labels" && r.Chance(1, 6) {
+			v, tag = longLabelsValue(r), "long-name"
+		}
 	case 1: // off by one around a well-formed value
 		v = wfValue(r, a.kind, n)
 		tag = "off-by-one"
